@@ -14,7 +14,7 @@ import elementpath.aliases as ta
 
 from elementpath.exceptions import ElementPathValueError
 from elementpath.sequences import xlist, XSequence
-from elementpath.helpers import split_function_test
+from elementpath.helpers import SPACES_OR_COMMENTS, split_function_test
 
 from elementpath.sequence_types import match_sequence_type
 from .functions import XPathFunction
@@ -26,7 +26,7 @@ class XPathArray(XPathFunction):
     """
     symbol = 'array'
     label = 'array'
-    pattern = r'(?<!\$)\barray(?=\s*(?:\(\:.*\:\))?\s*\{(?!\:))'
+    pattern = r'(?<!\$)\barray(?=' + SPACES_OR_COMMENTS + r'\{(?!\:))'
     _array: Optional[list[ta.ValueType]] = None
 
     def __init__(self, parser: ta.XPathParserType,
